@@ -64,10 +64,7 @@ impl Outcome {
         let escaped = self.escaping.has_unprintable(content);
         let mut expectation = self.escaping.escaped_expectation(content);
         if escaped {
-            // the escaped kind ignores the line ending, but strips a tailing ` (no-eol)`
-            if let Some(body) = expectation.strip_suffix(" (no-eol) (escaped)") {
-                expectation = format!("{body}\\x20(no-eol) (escaped)");
-            }
+            // the escaped kind ignores the line ending
         } else if !line.ends_with(b"\n") {
             expectation.push_str(" (no-eol)");
         } else if looks_like_modifier_or_exit_code(&expectation) {
@@ -85,6 +82,12 @@ impl Outcome {
                 format!("{} (escaped)", text[1..].replace('\\', "\\\\"))
             };
             expectation = format!("\\x{:02x}{}", expectation.as_bytes()[0], rest);
+        }
+
+        // the escaped kind strips a tailing ` (no-eol)` from its expression (Cram
+        // compatibility): when that is content, write its blank escaped
+        if let Some(body) = expectation.strip_suffix(" (no-eol) (escaped)") {
+            expectation = format!("{body}\\x20(no-eol) (escaped)");
         }
 
         expectation.push('\n');
